@@ -267,7 +267,7 @@ class AbstractOfflineSpecification(AbstractSpecification):
         self.explainer = explainer
 
     def explain(self):
-        self.explainer.explain(self.ast)
+        self.explainer.explain(self.ast, self.offline_interpreter)
 
     # forwarding to interpreter
     def evaluate(self, *args, **kwargs):
